@@ -47,7 +47,7 @@ for f in sorted(glob.glob(V+'/harness/mon/c*/MUTATIONS.md')):
 print("%d MUTATIONS.md files, about %d recorded mutants.\n" % (files, tot))
 print("### 7.8 Independently seeded changes\n")
 print("For each property a fresh sub-agent that saw only the property text (nothing from /verif) produced, in its own scratch worktree, a change\nthat breaks the property, compiles and passes the existing suite, plus a demonstration that fails with the change and passes without. Each was\nconfirmed again in a fresh worktree (`tools/seedconfirm.sh`: demo passes on HEAD, patch applies, `go build`, existing tests of the touched\npackages, demo fails) and filed as `/verif/seeded/<id>/{patch.diff, demo/, NOTES.md, meta.json}`. `tools/seedeval.sh` applies a seeded patch to a\nscratch worktree of /repo's HEAD and runs the checks against it (equivalent to `git -C /repo apply` + run + `git checkout`, without disturbing\nconcurrent users of /repo). Result of the last sweep (`tools/seedsweep.sh`, quick tier, seed 1):\n")
-print("""Seeding was done in rounds (`seeded/CNN` = round 1, `seeded/CNNb` = round 2, `seeded/CNNc` = round 3; later rounds were asked for less
+print("""Seeding was done in rounds (`seeded/CNN` = round 1, `seeded/CNNb` = round 2, `seeded/CNNc` = round 3, `seeded/CNNd` = round 4 on 24 properties whose checks had caught everything so far; `C02d`, `C07e` are reversed fix commits; later rounds were asked for less
 prominent entry points, histories and interleavings). A seeded change that a check missed was never dropped: the check was strengthened until
 it caught it, and the unchanged tree was re-verified silent. What the misses taught:
 
@@ -88,6 +88,13 @@ it caught it, and the unchanged tree was re-verified silent. What the misses tau
 | C34c | stricter config option returns early and skips a check | every tamper family under every combination of the validation options ("options only add checks") |
 | C38c, C39c | memo of the last validated key (caller's slice retained) / of verified signatures (keyed by a prefix) | genuine -> tampered -> genuine -> tampered histories per entry point, tamper written IN PLACE into the buffers of the genuine call and as a fresh copy (also adopted by C40, C46) |
 | C43c | `outstanding` decremented twice by a context-expired Submit | failed-Submit-under-back-pressure, then drain with a block held in flight |
+| C04d | `MsgBlock.MarshalCBOR` returns the bytes of a buffer it has already put back into a `sync.Pool` – only concurrent encoders collide | concurrent round-trip phase: G goroutines encode / decode different instances of one type, results re-compared after the others moved on |
+| C07d | tag head size computed linearly – wrong for 4- and 8-byte tag heads | head width of TAGS (258, 24, 259) as an encoding class; generated blocks with tagged sets and script lists; which led to the un-seeded omission "no datum range for tagged datum sets" (fixed, `8b37483`, seed `C07e`) |
+| C12d | transition-result channels pooled process-wide come back dirty after an instance was stopped mid-transition | histories over several Protocol INSTANCES: stop at every perturbation point, then judge a fresh instance from its first message |
+| C23d | envelope decoded into a per-client field – the raw slice given to `BlockRawFunc` is overwritten by the next block | everything handed to callbacks is retained without copying and compared after the batch and after the next request |
+| C29d | script hash memoised in a cell that survives a second decode into the same variable / is shared by copies | receiver reuse and by-value copies for scripts |
+| C31d | language-views cache keyed by the cost-model slice's address | cost model mutated in place between two validations; equal-length models over one backing array |
+| C33d | the transaction's own vote-delegation certificate satisfies the withdrawal gate | one certificate of every kind for the same / another credential in the withdrawing transaction |
 """)
 r=V+'/seeded/RESULTS.md'
 if os.path.exists(r): print(open(r).read())
